@@ -146,7 +146,10 @@ func (p *Prog) Func(pkg, name string) *ssa.Function {
 	if sp == nil {
 		return nil
 	}
-	return sp.Func(name)
+	if f := sp.Func(name); f != nil {
+		return f
+	}
+	return canonByRef[pkg+"."+name]
 }
 
 // Named looks up a named type.
@@ -165,6 +168,18 @@ func (p *Prog) Named(pkg, name string) *types.Named {
 
 // Method looks up a method (pointer or value receiver) of a named type.
 func (p *Prog) Method(pkg, typ, name string) *ssa.Function {
+	if f := p.methodRaw(pkg, typ, name); f != nil {
+		return f
+	}
+	for _, k := range []string{"(*" + pkg + "." + typ + ")." + name, "(" + pkg + "." + typ + ")." + name} {
+		if f := canonByRef[k]; f != nil {
+			return f
+		}
+	}
+	return nil
+}
+
+func (p *Prog) methodRaw(pkg, typ, name string) *ssa.Function {
 	n := p.Named(pkg, typ)
 	if n == nil {
 		return nil
@@ -187,6 +202,28 @@ func (p *Prog) Method(pkg, typ, name string) *ssa.Function {
 
 // Field looks up a struct field of a named type.
 func (p *Prog) Field(pkg, typ, field string) *types.Var {
+	if v := p.fieldRaw(pkg, typ, field); v != nil {
+		if _, renamedAway := canonField[v]; !renamedAway {
+			return v
+		}
+	}
+	for v, ref := range canonField {
+		if ref == field && v.Pkg() != nil && strings.HasSuffix(v.Pkg().Path(), "/"+pkg) {
+			if n := p.Named(pkg, typ); n != nil {
+				if st, ok := n.Underlying().(*types.Struct); ok {
+					for i := 0; i < st.NumFields(); i++ {
+						if st.Field(i) == v {
+							return v
+						}
+					}
+				}
+			}
+		}
+	}
+	return nil
+}
+
+func (p *Prog) fieldRaw(pkg, typ, field string) *types.Var {
 	n := p.Named(pkg, typ)
 	if n == nil {
 		return nil
@@ -263,5 +300,17 @@ func fnName(fn *ssa.Function) string {
 	}
 	s := fn.String()
 	s = strings.ReplaceAll(s, modPath+"/", "")
+	if len(canonFn) > 0 {
+		top := fn
+		for top.Parent() != nil {
+			top = top.Parent()
+		}
+		if ref, ok := canonFn[top]; ok {
+			cur := strings.ReplaceAll(top.String(), modPath+"/", "")
+			if strings.HasPrefix(s, cur) {
+				s = ref + s[len(cur):]
+			}
+		}
+	}
 	return s
 }
